@@ -484,6 +484,52 @@ def real_dask_pair(R: Run, cfg, subs_a, subs_b, sched):
         oracle(R, c, "", info, f"dask-pair:{sched}")
 
 
+def real_dask_recompute(R: Run, cfg, subs, sched):
+    """The same Delayed computed twice (a retry, or a user re-running the graph): the second run must hand
+    the writer exactly the same parts as the first."""
+    import dask
+    import dask.bag
+    from dask.delayed import delayed
+    from odc.geo.cog import _mpu as M
+
+    has_w, min_write, min_part, max_part, spill, wpc, hdr, ftr = cfg
+    w = RecWriter(min_write, min_part, max_part)
+    off = cid = 0
+    bags = []
+    for sub in subs:
+        parts = []
+        for sizes in sub:
+            items = []
+            for sz in sizes:
+                items.append((payload(off, sz), cid))
+                off += sz
+                cid += 1
+            parts.append(delayed(lambda x: x, pure=False)(items))
+        bags.append(dask.bag.from_delayed(parts))
+    mk_header = None if hdr is None else (lambda obs, _b=hdr_bytes(hdr): _b)
+    mk_footer = None if ftr is None else (lambda obs, _b=ftr_bytes(ftr): _b)
+    fut = M.mpu_write(bags if len(bags) > 1 else bags[0], w, mk_header=mk_header, mk_footer=mk_footer,
+                      writes_per_chunk=wpc, spill_sz=spill)
+    leaves = [l for sub in subs for l in sub]
+    tree = ("l", leaves[0])
+    for l in leaves[1:]:
+        tree = ("n", tree, ("l", l))
+    c = Case(True, min_write, min_part, max_part, spill, wpc, hdr, ftr, tree)
+    runs = []
+    for attempt in (1, 2):
+        w.calls, w.final = [], None
+        info = {"w": w, "seen": c.want_obs(), "exc": None, "cb_seen": []}
+        try:
+            fut.compute(scheduler="synchronous" if sched == "sync" else "threads")
+        except Exception as e:  # pylint: disable=broad-except
+            info["exc"] = e
+        oracle(R, c, "", info, f"dask-recompute:{sched}:run{attempt}")
+        runs.append(sorted(w.calls))
+    R.oracle(runs[0] == runs[1], "recompute-differs", {"line": c.line(), "via": f"dask-recompute:{sched}"},
+             f"second compute of the same graph wrote {[(p, len(d)) for p, d in runs[1]]}, first wrote "
+             f"{[(p, len(d)) for p, d in runs[0]]}")
+
+
 SIZES = [0, 3, 10, 25]
 
 
@@ -680,6 +726,9 @@ def run(R: Run):
                rng.choice([None, 6]), rng.choice([None, None, 5]))
         real_dask_pair(R, cfg, sa, sb, ["sync", "threads", "random"][i % 3])
         R.count("dask-pair")
+        if i % 2 == 0:
+            real_dask_recompute(R, cfg, sa, ["sync", "threads"][(i // 2) % 2])
+            R.count("dask-recompute")
     R.assumptions.append("dask runs every task once after its dependencies; tasks are pure functions of their inputs")
 
 
@@ -688,7 +737,11 @@ def replay(R: Run, rec) -> int:
     via = rec["case"].get("via", "")
     key = rec.get("key", "")
     before = len(R.oracle_failures)
-    if key == "upload-never-finalised" or via.startswith("dask-pair"):
+    if key == "recompute-differs" or via.startswith("dask-recompute"):
+        subs = [[l for l in tree_leaves(case.tree)]]
+        cfg = (True, case.min_write, case.min_part, case.max_part, case.spill, case.wpc, case.hdr, case.ftr)
+        real_dask_recompute(R, cfg, subs, "sync")
+    elif key == "upload-never-finalised" or via.startswith("dask-pair"):
         subs = [[l for l in tree_leaves(case.tree)]]
         cfg = (True, case.min_write, case.min_part, case.max_part, case.spill, case.wpc, case.hdr, case.ftr)
         real_dask_pair(R, cfg, subs, subs, "sync")
